@@ -26,7 +26,7 @@ seeded = "\n".join(rows)
 
 p = os.path.join(ROOT, "DESIGN.md")
 s = open(p).read()
-s = re.sub(r"(<!-- FINDINGS-BEGIN -->\n).*?(\n<!-- FINDINGS-END -->)", lambda m: m.group(1) + findings + m.group(2), s, flags=re.S)
-s = re.sub(r"(<!-- SEEDED-BEGIN -->\n).*?(\n<!-- SEEDED-END -->)", lambda m: m.group(1) + seeded + m.group(2), s, flags=re.S)
+s = re.sub(r"(<!-- FINDINGS-BEGIN -->\n).*?(<!-- FINDINGS-END -->)", lambda m: m.group(1) + findings + "\n" + m.group(2), s, flags=re.S)
+s = re.sub(r"(<!-- SEEDED-BEGIN -->\n).*?(<!-- SEEDED-END -->)", lambda m: m.group(1) + seeded + "\n" + m.group(2), s, flags=re.S)
 open(p, "w").write(s)
 print(f"findings: {len(d)}  seeded: {len(rows)-2}")
